@@ -53,16 +53,26 @@ RULE = ("cases are generated from one PRNG seeded by VERIF_SEED (which also repl
         "Feistel payload lengths 0..64, ids around 2^15/2^16, exponents 19/20/31; a case is non-trivial when its "
         "input is not empty; distinct = distinct (operation, input) pairs")
 CLAUSES = {
-    "GF(256) tables define a field": "TBD",
-    "interpolate = Lagrange interpolation": "TBD",
-    "any k or more distinct shares recover the secret": "TBD",
-    "fewer than k shares are rejected": "TBD",
-    "shares of different splits / ids / exponents / thresholds / lengths are rejected": "TBD",
-    "Share.parse ∘ mnemonic round trip": "TBD",
-    "RS1024 detects any single-word error": "TBD",
-    "RS1024 detects two- and three-word errors": "TBD",
-    "decrypt ∘ encrypt = id (Feistel)": "TBD",
-    "O15a: k = 1 yields one share whatever n": "TBD",
+    "GF(256) tables define a field": "proved (gf256_tables, gf256_field_ops; Mathlib Field instance Buidl.Shamir.GF256.instField; "
+                                     "kernel checks tables_check / next_check on the tables computed as _load does)",
+    "interpolate = Lagrange interpolation": "proved (interpolate_is_lagrange: Mathlib Lagrange.interpolate, byte by byte, x outside "
+                                            "the distinct nodes)",
+    "any k or more distinct shares recover the secret": "proved relative to HMAC / PBKDF2 / SHA-256: end to end generate_shares -> "
+                                                        "recover_mnemonic for every 1 <= k <= n <= 16, randomness, passphrase, "
+                                                        "both lengths, any order (generate_then_recover); core: any_k_shares_recover, "
+                                                        "split_shape, split_k1",
+    "fewer than k shares are rejected": "proved (fewer_than_k_rejected, fewer_than_k_mnemonics_rejected, no_shares_rejected)",
+    "shares of different splits / ids / exponents / thresholds / lengths are rejected": "proved for differing id / exponent / threshold / "
+        "count / length / repeated index (accepted_sets_consistent, mismatching_*_rejected, recover_mnemonic_accepts_only_consistent); "
+        "two splits that share id and parameters are told apart only by the digest (probability 2^-32 per attempt): correspondence-only",
+    "Share.parse ∘ mnemonic round trip": "proved for all in-range fields (parse_mnemonic_roundtrip, slip39_table_facts)",
+    "RS1024 detects any single-word error": "proved at every length and position (rs1024_single_error, share_single_word_error, "
+                                            "rs1024_create_verifies)",
+    "RS1024 detects two- and three-word errors": "correspondence-only (UNPROVED comment in Props/C15.lean: needs the minimum distance of "
+                                                 "the RS code over GF(1024)); harness kinds share_parse:corrupt2/3 and predicate "
+                                                 "corrupted_share_rejected",
+    "decrypt ∘ encrypt = id (Feistel)": "proved for every round function of the requested output length (decrypt_encrypt, encrypt_domain)",
+    "O15a: k = 1 yields one share whatever n": "observation, modelled faithfully and proved (split_k1); not a finding",
 }
 TRUSTED = ["HMAC-SHA256 (ShareSet.digest), PBKDF2-HMAC-SHA256 (ShareSet._crypt) and SHA-256 (BIP39 checksum) are "
            "parameters of every theorem; the driver instantiates them with Buidl.Model.Hash.* (checked against hashlib "
@@ -413,6 +423,20 @@ def p_wordlist(c):
     return ok, len(ws), 1024
 
 
+# sha256 of "\n".join(words) + "\n" of slip39_words.txt as it was when this harness was written (a lock value; the
+# official SLIP39 vectors embedded in buidl/test/test_shamir.py, replayed by the kinds share_parse:vectors and
+# recover_mnemonic:vectors, tie the list to the standard independently)
+SLIP39_SHA256 = "bcc4555340332d169718aed8bf31dd9d5248cb7da6e5d355140ef4f1e601eec3"
+
+
+def p_fingerprint(c):
+    import hashlib
+    with open(os.path.join(REPO, "buidl", "slip39_words.txt")) as f:
+        words = f.read().split()
+    got = hashlib.sha256(("\n".join(words) + "\n").encode()).hexdigest()
+    return got == SLIP39_SHA256, got, SLIP39_SHA256
+
+
 def p_interp_lagrange(c):
     import buidl.shamir as S
     pts = [(x, unx(y)) for x, y in c["pts"]]
@@ -438,6 +462,8 @@ PREDICATES = {
     "decrypt_encrypt_id": p_crypt_rt,
     "gf256_tables": p_tables,
     "slip39_wordlist": p_wordlist,
+    "slip39_fingerprint": p_fingerprint,
+    "official_vector_recovers": p_official_vector,
     "interpolate_is_lagrange": p_interp_lagrange,
 }
 
@@ -471,6 +497,33 @@ def vector_groups():
                 for e in node.elts):
             groups.append([e.value for e in node.elts])
     return groups
+
+
+def official_vectors():
+    """(name, share mnemonics, expected master secret hex) of the valid official SLIP39 vectors listed in
+    ShamirTest.test_recover (passphrase b"TREZOR")"""
+    path = os.path.join(REPO, "buidl", "test", "test_shamir.py")
+    tree = ast.parse(open(path).read())
+    out = []
+    for fn in ast.walk(tree):
+        if isinstance(fn, ast.FunctionDef) and fn.name == "test_recover":
+            for node in ast.walk(fn):
+                if (isinstance(node, ast.List) and len(node.elts) == 3
+                        and isinstance(node.elts[0], ast.Constant) and isinstance(node.elts[0].value, str)
+                        and isinstance(node.elts[1], ast.List)
+                        and isinstance(node.elts[2], ast.Constant) and isinstance(node.elts[2].value, str)
+                        and all(isinstance(e, ast.Constant) and isinstance(e.value, str) for e in node.elts[1].elts)
+                        and re.fullmatch(r"[0-9a-f]{32}|[0-9a-f]{64}", node.elts[2].value)):
+                    out.append((node.elts[0].value, [e.value for e in node.elts[1].elts], node.elts[2].value))
+    return out
+
+
+def p_official_vector(c):
+    """an official SLIP39 vector (valid share set, passphrase TREZOR) recovers the published master secret: ties the
+    word list, the RS1024 generator, the GF(256) tables, the digest and the Feistel parameters to the standard"""
+    import buidl.shamir as S
+    got = S.ShareSet([S.Share.parse(m) for m in c["shares"]]).recover(b"TREZOR").hex()
+    return got == c["secret"], got, c["secret"]
 
 
 # --------------------------------------------------------------------------------- generation
@@ -511,6 +564,7 @@ def run(ctx):
     add("tables", ["tables"])
     preds.append(("gf256_tables", {}))
     preds.append(("slip39_wordlist", {}))
+    preds.append(("slip39_fingerprint", {}))
     vlists = [[], [0], [1023], [0, 0, 0], [1] * 40, [1023] * 40, [1024], [2 ** 20], [2 ** 30 + 5, 7],
               [2 ** 64, 1, 2], list(range(20))]
     for _ in range(ctx.n(300)):
@@ -907,6 +961,14 @@ def run(ctx):
         for m in g:
             if m not in vector_shares:
                 vector_shares.append(m)
+    try:
+        offs = official_vectors()
+    except Exception as ex:
+        offs = []
+        rec.note(f"test_shamir.py test_recover vectors not extracted: {type(ex).__name__}: {ex}")
+    for name, shares, secret in offs:
+        preds.append(("official_vector_recovers", {"name": name, "shares": shares, "secret": secret}))
+    rec.count("vectors:official", len(offs))
     rec.count("vectors:groups", len(vgroups))
     rec.count("vectors:shares", len(vector_shares))
 
